@@ -291,3 +291,84 @@ pub fn exec_main(args: &[String]) -> i32 {
     }
     0
 }
+
+/// Scenario instbig: instantiate with increments beyond 32 bits (digits strings); TLC computed `accept`.
+pub fn instbig_main(args: &[String]) -> i32 {
+    use ats_smart_contract::contract::instantiate;
+    use ats_smart_contract::contract_info::get_contract_info;
+    use ats_smart_contract::msg::InstantiateMsg;
+    use cosmwasm_std::testing::{mock_env, mock_info};
+    use cosmwasm_std::Uint128;
+    use std::str::FromStr;
+    let stats_path = arg(args, "--stats").unwrap_or("instbig_stats.json").to_string();
+    let mut w = World::new();
+    let mut n = 0u64;
+    let mut mism: Vec<serde_json::Value> = vec![];
+    let mut other: Vec<String> = vec![];
+    let mut samples: Vec<serde_json::Value> = vec![];
+    let stdin = std::io::stdin();
+    for line in stdin.lock().lines() {
+        let line = match line {
+            Ok(l) => l,
+            Err(_) => break,
+        };
+        let js = match unescape_line(&line) {
+            Some(j) => j,
+            None => {
+                other.push(line);
+                continue;
+            }
+        };
+        let v: serde_json::Value = serde_json::from_str(&js).expect("instbig record");
+        let prec = v["prec"].as_u64().unwrap() as u128;
+        let inc_s = v["inc"].as_str().unwrap().to_string();
+        let expect = v["accept"].as_bool().unwrap();
+        let inc = match Uint128::from_str(&inc_s) {
+            Ok(x) => x,
+            Err(_) => continue,
+        };
+        n += 1;
+        w.clear_storage();
+        let msg = InstantiateMsg {
+            name: "ats".into(),
+            base_denom: "base".into(),
+            convertible_base_denoms: vec![],
+            supported_quote_denoms: vec!["q1".into()],
+            approvers: vec!["appr1".into()],
+            executors: vec!["exec1".into()],
+            ask_fee_rate: None,
+            ask_fee_account: None,
+            bid_fee_rate: None,
+            bid_fee_account: None,
+            ask_required_attributes: vec![],
+            bid_required_attributes: vec![],
+            price_precision: Uint128::new(prec),
+            size_increment: inc,
+        };
+        let res = std::panic::catch_unwind(std::panic::AssertUnwindSafe(|| {
+            instantiate(w.deps.as_mut(), mock_env(), mock_info("admin", &[]), msg)
+        }));
+        let ok = matches!(res, Ok(Ok(_)));
+        let mut stored_ok = true;
+        let mut stored = String::new();
+        if ok {
+            match get_contract_info(&w.deps.storage) {
+                Ok(ci) => {
+                    stored = format!("{}/{}", ci.price_precision, ci.size_increment);
+                    stored_ok = ci.price_precision.u128() == prec && ci.size_increment.to_string() == inc_s;
+                }
+                Err(_) => stored_ok = false,
+            }
+        }
+        if ok != expect || !stored_ok {
+            mism.push(serde_json::json!({"prec": prec as u64, "inc": inc_s, "expected_accept": expect, "observed_accept": ok,
+                "stored": stored, "clause": if ok && !expect { "C13.only_if" } else if !ok && expect { "C13.if" } else { "C13.stored" }}));
+        }
+        if samples.len() < 3 && n % 701 == 5 {
+            samples.push(serde_json::json!({"scen": "instbig", "prec": prec as u64, "inc": inc_s, "expected_accept": expect, "observed_accept": ok}));
+        }
+    }
+    let st = serde_json::json!({"records": n, "mismatches": mism, "samples": samples, "tlc_output": other});
+    std::fs::write(&stats_path, serde_json::to_string_pretty(&st).unwrap()).unwrap();
+    0
+}
